@@ -113,6 +113,73 @@ def _gen_traces(tier, out_dir, sd):
     return files
 
 
+def _gen_tlc_traces(tier, out_dir, sd):
+    """spec -> implementation: behaviours of the Broker design spec generated by `tlc -simulate` (Broker_SIM.tla),
+    translated into harness operations and replayed on the real broker."""
+    from vlib import tlc
+    want = 160 if tier == "quick" else 4000
+    num = 30 if tier == "quick" else 400
+    rc, out = tlc("Broker_SIM.tla", "Broker_SIM.cfg", os.path.join(WORK, "tlcmeta_broker_sim"), workers=1,
+                  timeout=900 if tier == "quick" else 3000, extra="-simulate num=%d -depth 10 -seed %d" % (num, sd))
+    lists = []
+    seen = set()
+    for line in out.splitlines():
+        if not line.startswith('<<"OPS", "'):
+            continue
+        body = line[len('<<"OPS", "'):].rstrip()
+        if body.endswith('">>'):
+            body = body[:-3]
+        try:
+            hist = json.loads(body.encode().decode("unicode_escape"))
+        except ValueError:
+            continue
+        sig = json.dumps(hist, sort_keys=True)
+        if sig in seen:
+            continue
+        seen.add(sig)
+        lists.append(hist)
+    if not lists:
+        raise ToolError("Broker_SIM produced no behaviours (rc=%s)\n%s" % (rc, out[-2000:]))
+    # spread over the generated set deterministically
+    step = max(1, len(lists) // want)
+    lists = lists[::step][:want]
+
+    def tr(o):
+        op = o["op"]
+        if op in ("AddCluster", "AddNodes", "ScaleDown"):
+            return {"op": op, "name": o["name"], "n": o["n"]}
+        if op in ("MigrateSlots", "DeleteFree", "Balance", "RemoveCluster"):
+            return {"op": op, "name": o["name"]}
+        if op == "Commit":
+            return {"op": "Commit", "name": o["name"], "k": o["k"], "form": o["form"]}
+        if op == "FailoverAt":
+            return {"op": "FailoverAt", "name": o["name"], "chunk": o["chunk"], "half": o["half"]}
+        if op == "ReAddFailed":
+            return {"op": "ReAddFailed", "k": o["k"]}
+        if op == "ChangeConfig":
+            return {"op": "ChangeConfig", "name": o["name"], "key": "compression_strategy", "value": "allow_all"}
+        raise ToolError("unknown symbolic op %r" % (o,))
+    prefix = [{"op": "AddProxy", "host": h, "idx": i, "explicit_host": True, "index": None} for h in (1, 2, 3) for i in (0, 1)]
+    d = os.path.join(out_dir, "tlc")
+    os.makedirs(d, exist_ok=True)
+    procs = 8
+    cmds = []
+    for j in range(procs):
+        part = lists[j::procs]
+        lf = os.path.join(d, "lists_%d.ndjson" % j)
+        with open(lf, "w") as fh:
+            for n, hist in enumerate(part):
+                fh.write(json.dumps({"ops": prefix + [tr(o) for o in hist], "limit": (n + j) % 3}) + "\n")
+        cmds.append("%s broker-replay-many --lists %s --out %s" % (UVERIF, lf, os.path.join(d, "p%d" % j)))
+    rc, out2 = sh(" & ".join(cmds) + " & wait", timeout=3600)
+    files = []
+    for j in range(procs):
+        files += sorted(glob.glob(os.path.join(d, "p%d" % j, "trace_*.ndjson")))
+    if not files:
+        raise ToolError("replay of TLC-generated behaviours produced no traces\n" + out2[-1500:])
+    return files, len(seen)
+
+
 def spec_level(tier):
     """Exhaustive TLC run of the broker design spec (if present)."""
     cfg = "Broker_MC_%s.cfg" % tier
@@ -139,6 +206,9 @@ def run_family(tier):
     out_dir = fresh_dir(os.path.join(WORK, "broker_" + tier))
     files = _gen_traces(tier, out_dir, sd)
     log("generated %d traces in %.1fs" % (len(files), time.time() - t0))
+    tlc_files, tlc_distinct = _gen_tlc_traces(tier, out_dir, sd)
+    log("replayed %d TLC-generated behaviours (of %d distinct) in %.1fs" % (len(tlc_files), tlc_distinct, time.time() - t0))
+    files = files + tlc_files
     shards, index = make_shards(files, os.path.join(out_dir, "shards"), 12 if tier == "quick" else 14)
     verdicts = validate_shards("BrokerTrace.tla", "BrokerTrace.cfg", shards, jobs=12 if tier == "quick" else 14,
                                timeout=600 if tier == "quick" else 3400)
@@ -183,7 +253,7 @@ def run_family(tier):
             detailed.append(v)
     res = {
         "tier": tier, "seed": sd, "wall_s": time.time() - t0,
-        "traces": len(files), "events": events,
+        "traces": len(files), "events": events, "tlc_generated_traces": len(tlc_files), "tlc_distinct_behaviours": tlc_distinct,
         "violations": detailed[:400], "violation_count": len(detailed),
         "divergences": div_detail, "divergence_count": len(divs),
         "divergent_traces": len({d["trace"] for d in divs}),
